@@ -60,6 +60,7 @@ properties! {
     "C09" => c09,
     "C10" => c10,
     "C11" => c11,
+    "C13" => c13,
     "C15" => c15,
     "C16" => c16,
     "C17" => c17,
